@@ -1,7 +1,7 @@
 (* C09 — HDLC frames follow the frame format, round-trip; corruption never alters content.
    (partial: see the level note in MANIFEST.json and DESIGN.md; the parse-after-build and
    corruption statements are checked by exhaustive fault enumeration on the implementation) *)
-From Dlms Require Import CrcSpec CrcDetect CrcWeight FrameDetect FrameWeight Base CrcModel CrcSpec FieldsSpec AddrModel AddrSpec AddrProofs FrameModel FrameSpec FrameProofs.
+From Dlms Require Import CrcSpec CrcDetect CrcWeight FrameDetect FrameWeight FrameRoundtrip Base CrcModel CrcSpec FieldsSpec AddrModel AddrSpec AddrProofs FrameModel FrameSpec FrameProofs.
 
 (* every frame the library can build (all six kinds, addresses in the C13 domain, numbers 0..7,
    both flag bits, any payload with total length <= 2047) serialises to
@@ -10,6 +10,15 @@ From Dlms Require Import CrcSpec CrcDetect CrcWeight FrameDetect FrameWeight Bas
    X-25 CRC over the right spans *)
 Theorem C09_layout : forall k f, frame_ok k f -> frame_to_bytes k f = Ok (std_frame k f).
 Proof. exact frame_build_is_standard. Qed.
+
+(* round trip: parsing the standard bytes of any frame in the domain returns its addresses, sequence numbers, poll/final and
+   segmentation bits and payload ([norm]: the attributes a frame of that kind carries), for each of the five parsers the library has,
+   with the addresses in the direction the parser assumes (destination = server for DISC, client otherwise) *)
+Theorem C09_parse_of_build : forall k f, frame_ok k f ->
+  a_server (f_dest f) = is_disc k -> a_server (f_src f) = negb (is_disc k) -> k <> KSnrm ->
+  frame_from_bytes k (std_frame k f) = Ok (norm k f).
+Proof. exact parse_of_build. Qed.
+Print Assumptions C09_parse_of_build.
 
 (* whatever a parser accepts is enclosed by flags, is exactly as long as its format field says
    and carries a frame check sequence that is correct for the received bytes themselves *)
